@@ -146,9 +146,32 @@ def _streams():
     ]
 
 
+def _all_streams(max_len):
+    """every result stream up to max_len over {primary a / day 0, primary a / day 1, primary b / day 0, no collocations}"""
+    import itertools
+    d0, d1 = datetime(2020, 1, 1, 23, 50), datetime(2020, 1, 2, 0, 10)
+    out = []
+    for n in range(max_len + 1):
+        for word in itertools.product("AaBn", repeat=n):
+            structure, stream, cur = [], [], None
+            for k, ch in enumerate(word):
+                prim = "b" if ch == "B" else "a"
+                if prim != cur:
+                    structure.append(0)
+                    cur = prim
+                structure[-1] += 1
+                stream.append((None, None) if ch == "n" else (Token(k, d1 if ch == "a" else d0), {"primary.n": k}))
+            out.append(("".join(word) or "-", structure or [1], stream))
+    return out
+
+
+import os as _os
+_THOROUGH = _os.environ.get("VERIF_TIER_EFFECTIVE", "quick") == "thorough"
+
+
 @theorem(P, "process-caller-conserves-results")
 def thm_conserve():
-    for label, structure, stream in _streams():
+    for label, structure, stream in (_streams() + (_all_streams(4) if _THOROUGH else [])):
         for bundle in (None, "primary", "daily"):
             puts, errs = _run(structure, stream, bundle)
             want = [c for c, _a in stream if c is not None]
